@@ -105,7 +105,9 @@ def t_edit(E):
     # tag soundness: instantiate the incremental contract's clause (S) at the previous inputs of both calls
     INCR.use_sound(inner_ad, old_args)
     INCR.use_sound(rd, (old_args, E.method(old_inner, "get_retval")))
-    E.prove("C08.Dimap.edit.nochange_sound", E.Implies(T.d_nc_all(rd.t), E.eq(E.method(new, "get_retval"), old_ret)))
+    # (C15: "the new return value AND ITS CHANGE TAG match recomputing pre and post on the new arguments")
+    E.prove("C08.Dimap.edit.nochange_sound", E.Implies(T.d_nc_all(rd.t), E.eq(E.method(new, "get_retval"), old_ret)),
+            also=["C15"])
     E.prove("C15.Dimap.edit.unchanged_args_unchanged_inner_retval_gives_nochange", E.Implies(
         E.And(T.d_nc_all(ad.t), T.d_nc_all(T.edit_rd(g.t, k.t, old_inner.t, E.I.to_u(req), inner_ad.t))), T.d_nc_all(rd.t)))
     E.refutable("dimap.edit", T.d_nc_all(rd.t))
